@@ -36,6 +36,7 @@ struct Case {
   std::vector<std::pair<int64_t, uint64_t>> reads;  // (after, bytes)
   // input
   uint64_t input_size = 0;
+  uint64_t pipe_cap = 0;        // start-up input: capacity the pipes are shrunk to (0: the default 65536)
   int input_reader = 0;    // 0 reads at once, 1 reads late, 2 never reads
 };
 
@@ -71,6 +72,13 @@ Case decode(Tape &t)
   if (c.scenario == 2) {
     static const uint64_t ins[] = { 0, 1, 4096, 65535, 65536, 65537, 1 << 20 };
     c.input_size = ins[t.pick(7)];
+    // a machine that hands out small pipes: the same boundary, elsewhere
+    if (t.chance(1, 3)) {
+      c.pipe_cap = t.coin() ? 4096 : 8192;
+      static const int64_t off[] = { -4096, -1, 0, 1, 4096, 20000 };
+      int64_t v = (int64_t) c.pipe_cap + off[t.pick(6)];
+      c.input_size = (uint64_t) (v < 0 ? 0 : v);
+    }
     c.input_reader = (int) t.pick(3);
   }
   return c;
@@ -245,6 +253,7 @@ CaseResult run_case(Tape &t, long)
                      .kv("reader", c.reader)
                      .kv("child_reads", (unsigned long) c.reads.size())
                      .kv("input_size", (unsigned long long) c.input_size)
+                     .kv("pipe_capacity", (unsigned long long) (c.pipe_cap ? c.pipe_cap : kCap))
                      .kv("input_reader", c.input_reader)
                      .str();
   res.hash = mix(mix((uint64_t) c.scenario | (uint64_t) c.nonblocking << 2 | (uint64_t) c.stream << 3 | (uint64_t) c.far << 5 | (uint64_t) c.later << 7 | (uint64_t) c.reader << 9 | (uint64_t) c.input_reader << 11,
@@ -266,7 +275,13 @@ CaseResult run_case(Tape &t, long)
   }
   vt::VChild ch;
   size_t ep_start0 = w.episodes.size();
+  uint64_t cap = kCap;
+  if (c.scenario == 2 && c.pipe_cap) {
+    vs_pipe_capacity((int) c.pipe_cap);
+    cap = c.pipe_cap;
+  }
   std::string err = vt::start_puppet(w, fw::case_dir() + "/ctl", opt, ch);
+  vs_pipe_capacity(0);
   auto teardown = [&]() {
     w.uninstall();
     for (auto &kk : w.kids)
@@ -281,8 +296,9 @@ CaseResult run_case(Tape &t, long)
   if (c.scenario == 2) {
     bool blocked = w.start_blocked;
     for (size_t i = ep_start0; i < w.episodes.size(); i++) blocked = blocked || w.episodes[i].in_start;
-    res.nontrivial = c.input_size >= kCap;
-    if (c.input_size >= kCap) res.cls("input-at-or-above-capacity");
+    res.nontrivial = c.input_size >= cap;
+    if (c.input_size >= cap) res.cls("input-at-or-above-capacity");
+    if (c.pipe_cap) res.cls("small-pipes");
     if (blocked) res.fail("start-blocked-on-input", "reproc_start had to wait while writing " + std::to_string(c.input_size) + " bytes of start-up input (nothing can read them before the child exists)");
     else if (ch.start_result > 0 && err.empty()) {
       res.cls("input-delivered");
@@ -318,7 +334,7 @@ CaseResult run_case(Tape &t, long)
       res.cls("input-start-failed");
       // all or nothing: no child left behind, handle not started
       if (vs_live_children(nullptr, 0) != 0) res.fail("input-failed-start-left-child", "start failed on start-up input (" + std::to_string(ch.start_result) + ") but left a child behind");
-      if (c.input_size < kCap) res.fail("input-small-failed", "start-up input of " + std::to_string(c.input_size) + " bytes (below the pipe capacity) made start fail with " + std::to_string(ch.start_result));
+      if (c.input_size < cap) res.fail("input-small-failed", "start-up input of " + std::to_string(c.input_size) + " bytes (below the pipe capacity of " + std::to_string(cap) + ") made start fail with " + std::to_string(ch.start_result));
     } else {
       res.inconclusive("start: " + err);
     }
